@@ -61,9 +61,11 @@ def gen_case(r, cid, tier):
     else:
         spec["depth"] = r.randint(1, 2) if ("tensor" in ty or ty in ("level", "curved", "hyperbolic")) else r.randint(1, 6 if d <= 2 else 4)
     spec["aw"] = gl.rand_aw(r, d, ty) if r.random() < 0.35 else []
+    if "tensor" in ty and spec["aw"]:
+        spec["depth"] = 1
     lines = ["case " + cid, gl.make_cmd(spec)]
     trans = None
-    if r.random() < 0.3 and (fam != "global" or spec["rule"] in moments.UNIFORM):
+    if r.random() < 0.35:
         trans = gl.rand_transform(r, spec)
         lines.append(gl.trans_cmd(trans))
     lines += ["dump g meta allpoints qw" + ("" if fam == "fourier" else " polyq"), "load g poly", "dump g values", "integ g"]
@@ -144,9 +146,28 @@ def run(res, tier, seed, replay_script=None):
             if fam == "fourier":
                 xc = [[(pts[i * d + j] - a[j]) / (b[j] - a[j]) for j in range(d)] for i in range(npt)]
                 jac = math.prod(b[j] - a[j] for j in range(d))
+            elif rule.startswith("gauss-laguerre"):
+                # y = x / b + a ; weight (y-a)^alpha exp(-b (y-a)) : change of variables constant b^-(1+alpha)
+                xc = [[(pts[i * d + j] - a[j]) * b[j] for j in range(d)] for i in range(npt)]
+                jac = math.prod(b[j] ** (-(1.0 + al)) for j in range(d))
+            elif rule.startswith("gauss-hermite"):
+                # y = x / sqrt(b) + a ; weight |y-a|^alpha exp(-b (y-a)^2) : constant b^-((1+alpha)/2)
+                xc = [[(pts[i * d + j] - a[j]) * math.sqrt(b[j]) for j in range(d)] for i in range(npt)]
+                jac = math.prod(b[j] ** (-(1.0 + al) / 2.0) for j in range(d))
             else:
                 xc = [[(2.0 * pts[i * d + j] - (a[j] + b[j])) / (b[j] - a[j]) for j in range(d)] for i in range(npt)]
-                jac = math.prod((b[j] - a[j]) / 2.0 for j in range(d))
+                # weight (b-y)^alpha (y-a)^beta : constant ((b-a)/2)^(alpha+beta+1)
+                if rule.startswith("gauss-chebyshev1"):
+                    ex = 0.0
+                elif rule.startswith("gauss-chebyshev2"):
+                    ex = 2.0
+                elif rule.startswith("gauss-gegenbauer"):
+                    ex = 2.0 * al + 1.0
+                elif rule.startswith("gauss-jacobi"):
+                    ex = al + be + 1.0
+                else:
+                    ex = 1.0
+                jac = math.prod(((b[j] - a[j]) / 2.0) ** ex for j in range(d))
         else:
             xc = [pts[i * d:(i + 1) * d] for i in range(npt)]
             jac = 1.0
